@@ -220,6 +220,7 @@ def run_xcheck(prop_id, seed, jobs):
     spec = importlib.util.spec_from_file_location('xcheck_tool', os.path.join(VERIF, 'tools', 'xcheck.py'))
     m = importlib.util.module_from_spec(spec)
     try:
+        sys.modules['xcheck_tool'] = m
         spec.loader.exec_module(m)
         s = seed * 100 + int(prop_id[1:]) if prop_id[1:].isdigit() else seed
         summary, mism = m.run(seed=s, ngen=40, jobs=jobs, quiet=True)
